@@ -17,14 +17,27 @@ rm -f "$wt/$name"
 ( cd "$wt" && go test -vet=off -count=1 . > /tmp/seedeval_$id.suite 2>&1 ); rc_suite=$?
 echo "$id: demo without change rc=$rc_without (want 0); demo with change rc=$rc_with (want !=0); existing suite with change rc=$rc_suite (want 0)"
 git -C /repo worktree remove --force "$wt"; rm -rf "$wt"
-# checks against /repo
-git -C /repo apply "$src/patch.diff" || exit 2
+# checks against the changed tree (a scratch worktree given to the checks as VERIF_REPO,
+# so that /repo itself stays untouched while other runs use it; set SEED_INPLACE=1 to
+# apply to /repo instead, as the brief describes)
+if [ -n "${SEED_INPLACE:-}" ]; then
+  git -C /repo apply "$src/patch.diff" || exit 2
+  target=/repo
+else
+  target=$(mktemp -d /tmp/seedtree-XXXX)
+  git -C /repo worktree add -q --detach "$target" HEAD || exit 2
+  ( cd "$target" && git apply "$src/patch.diff" ) || exit 2
+fi
 ev=$(mktemp -d /tmp/seedev-XXXX)
 for c in "$@"; do
-  VERIF_EVIDENCE_DIR=$ev VERIF_REPLAY_DIR=$ev timeout 1800 /verif/bin/verif check $c --tier ${SEED_TIER:-quick} > $ev/$c.out 2> $ev/$c.err
+  VERIF_REPO=$target VERIF_EVIDENCE_DIR=$ev VERIF_REPLAY_DIR=$ev timeout 1800 /verif/bin/verif check $c --tier ${SEED_TIER:-quick} > $ev/$c.out 2> $ev/$c.err
   rc=$?
   echo "$id: check $c rc=$rc violations=$(grep -c '^VIOLATION' $ev/$c.out) $(tail -1 $ev/$c.err | cut -c1-140)"
   grep "key=" $ev/$c.err | head -3 | cut -c1-220
 done
-git -C /repo checkout -- .
+if [ -n "${SEED_INPLACE:-}" ]; then
+  git -C /repo checkout -- .
+else
+  git -C /repo worktree remove --force "$target"; rm -rf "$target"
+fi
 rm -rf $ev
